@@ -30,7 +30,7 @@ TECHNIQUE = (
     "cache-reset model validated against fresh interpreters"
 )
 LEVEL_TEXT = (
-    "49 calls (einsum, array_contract, array_contract_path/tree/expression, "
+    "50 calls (einsum, array_contract, array_contract_path/tree/expression, "
     "einsum_expression, expression reuse on new arrays) differing pairwise "
     "in one cache-key component (output order, one size, optimize as preset "
     "/ tuple path / list path / nested-list path / edge path, "
@@ -221,6 +221,25 @@ def build_pool():
             size_dict={"a": 2, "c": 100, "b": 3, "d": 2},
             optimize="optimal", cache=cache), 3),
         want=["path", [[1, 2], [0, 1]]])
+    # the caller scribbles on the path it was handed, then asks again
+    def path_scribbled(cache):
+        kw = dict(optimize="greedy", cache=cache)
+        p1 = ctg.array_contract_path(base_in + (("d", "e"),), ("a", "e"),
+                                     {**sd, "e": 3}, **kw)
+        first = path_obs(p1, 4)
+        try:
+            p1[0][0] = 7
+        except TypeError:
+            try:
+                p1[0] = (7, 7)
+            except TypeError:
+                pass  # immutable: nothing to scribble on
+        p2 = ctg.array_contract_path(base_in + (("d", "e"),), ("a", "e"),
+                                     {**sd, "e": 3}, **kw)
+        return ["two-paths", first, path_obs(p2, 4)]
+
+    P["path-returned-object-modified-between-calls"] = dict(
+        fn=path_scribbled, want=None)
     P["path-nested-list"] = dict(
         fn=lambda cache: path_obs(ctg.array_contract_path(
             base_in, ("a", "d"), sd, optimize=[[0, 2], [0, 1]],
